@@ -235,7 +235,7 @@ def _fns():
     return [RunBundler.collect, RunBundler._pack_external_assets, RunBundler._pack_seq_nums_into_stream_datum, RunBundler.declare_stream, RunBundler.close_run]
 
 
-register(Harness("c45_collect", "C45", make, {"quick": dict(C=3, imax=2, omax=1, shards=16, budget_s=300, per_path_s=30), "thorough": dict(C=4, imax=3, omax=2, shards=64, budget_s=3000, per_path_s=30)},
+register(Harness("c45_collect", "C45", make, {"quick": dict(C=3, imax=2, omax=1, shards=16, budget_s=300, per_path_s=30), "thorough": dict(C=3, imax=3, omax=2, shards=64, budget_s=3000, per_path_s=30)},
                  goals=["frames-collected", "detectors-out-of-step", "index-does-not-start-at-0", "two-streams"], functions=_fns, mode="schedule",
                  symbolic="1 or 2 stream-asset-writing detectors; 1..C collects; frames written by each detector before each collect in [0, imax]; frames already written before the run in [0, omax]; one stream, or two declared streams collected alternately",
                  out_of_bound=OUT + "; more than C collects, 2 detectors or 2 streams; interruptions between collects; detectors that also produce events", stubs=STUBS,
